@@ -29,7 +29,9 @@ def select(rnd, fam, tier_all=False):
         key = (m.get("op"), m.get("size"), m.get("trunc"), m.get("delta"))
         if m["kind"] in ("basis", "additive") and key in chosen:
             q.add(m["name"])
-        if m["kind"] == "basis" and key == big and m["p"] in (0, big[1] - 1 if big[0] == "fft" else big[2] - 1):
+        # (size-8 basis harnesses take 3-15 min each: thorough tier; quick covers size 8 through the
+        #  NoSimd known answer and the SIMD miters)
+        if m["kind"] == "kat" and m["size"] == 8 and m["engine"] == "nosimd" and m["op"] == "fft":
             q.add(m["name"])
         if m["kind"] == "miter" and (key in chosen[:2] or (key == big and m["engine"] == "avx2")):
             q.add(m["name"])
@@ -42,8 +44,7 @@ def select(rnd, fam, tier_all=False):
             q.add(m["name"])
         if m["kind"] == "mul" and m["nblocks"] == 1:
             q.add(m["name"])
-        if m["kind"] == "mul_naive" and m["log_m"] in (12345, 65535):
-            q.add(m["name"])
+        # (mul_naive: thorough tier only, see families.py)
     return q
 
 
@@ -69,7 +70,7 @@ def mk(m, pid, q):
         return Harness(name, pid, f"{eng}::mul on {m['nblocks']} fully symbolic block(s) with an ARBITRARY table row that is the nibble table of an arbitrary GF(2)-linear map T (16 symbolic words), arbitrary log_m: every one of the 32 lanes becomes T(x)",
                        encodes=ENG_FNS[eng], bounds=f"{m['nblocks']} block(s); unwind 128", timeout=1800, mem_gb=8, stubs=stubs, symbolic="16 table words, log_m, all block bytes", tiers=tiers)
     return Harness(name, pid, f"Naive::mul(log_m={m['log_m']}) equals NoSimd::mul on a symbolic symbol (one lane): exp/log path vs nibble-table path",
-                   encodes=ENG_FNS["naive"] + ["NoSimd::mul"], bounds="one symbolic lane (exp/log statics are indexed symbolically)", timeout=1800, mem_gb=8, symbolic="one 16-bit symbol", tiers=tiers)
+                   encodes=ENG_FNS["naive"] + ["NoSimd::mul"], bounds="one symbolic lane (exp/log statics are indexed symbolically)", timeout=7200, mem_gb=12, symbolic="one 16-bit symbol", tiers=("thorough",))
 
 
 @register("C15")
@@ -110,5 +111,5 @@ def plan03(ctx):
                              "mul of Ssse3/Avx2/NoSimd: identical because each equals the same linear map of its row (C15 mul harnesses) and MUL128 = byte planes of MUL16 (C15 z3 obligation T3)",
                              "end to end: every engine refining the contract yields the same codec bytes (C01/C02 over the contract)",
                              "DefaultEngine = one of these engines behind Box<dyn Engine> (selection: C14)"],
-                outside=["Naive::fft / Naive::ifft: NOT decided (they read the 65536-entry exp/log statics; full-block miter, one-lane miter and even a concrete known answer run out of memory or time under CBMC); Naive::mul is decided against NoSimd::mul", "AArch64 hardware (the Neon SOURCE runs on 7 emulated intrinsics written from the Arm pseudo-code)", "FFT sizes > 8 (Naive: > 4)", "eval_poly bodies (all engines delegate to utils::eval_poly: C14 marker harness)"],
+                outside=["the Naive engine: NOT decided by the solver (every path reads the 65536-entry exp/log statics at data-dependent indexes; full-block miter, one-lane miter, a concrete known answer and even Naive::mul on one symbolic symbol run out of memory or time under CBMC). What is decided about it: its tables (C15 z3 T1: exp/log are the true exponential/logarithm), add_mod (C15), and eval_poly delegation (C14)", "AArch64 hardware (the Neon SOURCE runs on 7 emulated intrinsics written from the Arm pseudo-code)", "FFT sizes > 8 (Naive: > 4)", "eval_poly bodies (all engines delegate to utils::eval_poly: C14 marker harness)"],
                 trusted_base=COMMON_TRUSTED)
